@@ -451,7 +451,7 @@ func cmdCheck(args []string) int {
 		"wall_s":      round3(time.Since(t0).Seconds()),
 		"violations":  len(viols) + len(fatalFns),
 	}
-	if !*noEvidence {
+	if !*noEvidence && os.Getenv("GOVC_NOEVIDENCE") == "" {
 		os.MkdirAll(filepath.Join(*verif, "evidence"), 0o755)
 		writeJSON(filepath.Join(*verif, "evidence", *prop+".json"), ev)
 	}
